@@ -24,6 +24,18 @@ def callee_name(n):
     raise Unsupported('callee ' + c['kind'])
 def is_comp_call(n):  # compRef()(a, b)
     return n['kind'] == 'CXXOperatorCallExpr' and callee_name(n) == 'operator()' and strip(n['inner'][1])['kind'] == 'CXXMemberCallExpr' and callee_name(strip(n['inner'][1])) == 'compRef'
+LEN = ['len']   # text for end(): the variable bound at entry (insert_hint) or the current length (functions that resize the vector)
+def lambda_text(n):
+    """[&comp](const_reference v1, const_reference v2) { return <expr>; } -> (fun v1 v2 => <expr>)"""
+    params = []; body = None
+    for m in walk(n):
+        if m.get('kind') == 'CXXMethodDecl' and m.get('name') == 'operator()':
+            params = [c['name'] for c in m.get('inner', []) if c['kind'] == 'ParmVarDecl']
+            body = [c for c in m.get('inner', []) if c['kind'] == 'CompoundStmt'][0]
+            break
+    if body is None or len(body.get('inner', [])) != 1 or body['inner'][0]['kind'] != 'ReturnStmt':
+        raise Unsupported('lambda shape')
+    return '(fun %s => %s)' % (' '.join(params), ex(body['inner'][0]['inner'][0]))
 def ex(n):
     n = strip(n); k = n['kind']
     if k == 'DeclRefExpr': return n['referencedDecl']['name']
@@ -45,14 +57,26 @@ def ex(n):
         c, a, b = [ex(x) for x in n['inner']]
         return '(if %s then %s else %s)' % (c, a, b)
     if k == 'CXXOperatorCallExpr' and is_comp_call(n): return '(cmp %s %s)' % (ex(n['inner'][2]), ex(n['inner'][3]))
+    if k == 'CXXOperatorCallExpr' and callee_name(n) == 'operator()' and strip(n['inner'][1])['kind'] == 'DeclRefExpr' and strip(n['inner'][1])['referencedDecl']['name'] == 'comp':
+        return '(cmp %s %s)' % (ex(n['inner'][2]), ex(n['inner'][3]))   # const Compare &comp = compRef()
     if k == 'CXXMemberCallExpr':
         nm = callee_name(n); obj = strip(strip(n['inner'][0])['inner'][0]) if strip(n['inner'][0]).get('inner') else None
         if nm in ('begin', 'cbegin', 'mbegin'): return '0'
-        if nm in ('end', 'cend', 'mend'): return 'len'
-        if nm == 'lower_bound' and len(n['inner']) == 2: return '(lower_bound cmp l 0 len %s)' % ex(n['inner'][1])   # FlatSet::lower_bound(k)
+        if nm in ('end', 'cend', 'mend'): return LEN[0]
+        if nm == 'lower_bound' and len(n['inner']) == 2: return '(lower_bound cmp l 0 %s %s)' % (LEN[0], ex(n['inner'][1]))   # FlatSet::lower_bound(k)
         if nm == 'find' and len(n['inner']) == 2: return '(find_gen cmp l %s)' % ex(n['inner'][1])
         if nm == 'erase' and obj is not None and obj['kind'] == 'MemberExpr' and obj.get('name') == '_sortedVector':
+            if len(n['inner']) == 3:   # erase(std::unique(begin, end, pred), end())
+                u = strip(n['inner'][1])
+                if u['kind'] == 'CallExpr' and callee_name(u) == 'unique' and ex(u['inner'][1]) == '0' and ex(u['inner'][2]) == LEN[0] and ex(n['inner'][2]) == LEN[0]:
+                    return 'ERASEUNIQ %s' % lambda_text(u['inner'][3])
+                raise Unsupported('erase(range) shape')
             return 'VECERASE %s' % ex(n['inner'][1])
+        if nm == 'insert' and obj is not None and obj['kind'] == 'MemberExpr' and obj.get('name') == '_sortedVector' and len(n['inner']) == 4:
+            if ex(n['inner'][1]) != LEN[0] or ex(n['inner'][2]) != 'first' or ex(n['inner'][3]) != 'last':
+                raise Unsupported('range insert not at end()')
+            return 'VECAPPEND'
+        if nm == 'eraseDuplicates' and len(n['inner']) == 1: return 'ERASEDUP'
         if nm == 'insert' and obj is not None and obj['kind'] == 'MemberExpr' and obj.get('name') == '_sortedVector':
             return 'VECINSERT %s' % ex(n['inner'][1])          # handled at return position
         if nm == 'insert' and obj is not None and obj['kind'] == 'CXXThisExpr': return 'SETINSERT'
@@ -68,6 +92,8 @@ def ex(n):
             return '(%s + %s)' % (ex(args[0]), d)
         if nm == 'lower_bound': return '(lower_bound cmp l %s %s %s)' % (ex(args[0]), ex(args[1]), ex(args[2]))
         if nm == 'forward': return ex(args[0])
+        if nm == 'stable_sort' and len(args) == 3: return 'SSORT %s %s' % (ex(args[0]), ex(args[1]))
+        if nm == 'inplace_merge' and len(args) == 4: return 'IMERGE %s %s %s' % (ex(args[0]), ex(args[1]), ex(args[2]))
         raise Unsupported('call ' + nm)
     if k == 'CXXDefaultArgExpr': return '1'
     if k in ('CXXConstructExpr', 'CXXTemporaryObjectExpr') and len(n.get('inner', [])) == 2:   # std::pair<iterator, bool>(it, flag)
@@ -88,13 +114,21 @@ def update_of(s):
         if e.startswith('VECINSERT '):
             return strip(t['inner'][0])['referencedDecl']['name'], '(vec_insert l %s v)' % e[len('VECINSERT '):]
         return None
-    if t['kind'] == 'CXXMemberCallExpr':
+    if t['kind'] in ('CXXMemberCallExpr', 'CallExpr'):
         try:
             e = ex(t)
         except Unsupported:
             return None
         if e.startswith('VECERASE '):
             return None, '(vec_erase l %s)' % e[len('VECERASE '):]
+        if e.startswith('ERASEUNIQ '):
+            return None, '(erase_unique %s l)' % e[len('ERASEUNIQ '):]
+        if e == 'ERASEDUP':
+            return None, '(erase_duplicates_gen cmp l)'
+        if e.startswith('SSORT '):
+            return None, '(stable_sort_range cmp l %s)' % e[len('SSORT '):]
+        if e.startswith('IMERGE '):
+            return None, '(inplace_merge_range cmp l %s)' % e[len('IMERGE '):]
     return None
 def block(stmts, k):
     """k: Gallina text for the fallthrough continuation (None = unreachable)"""
@@ -105,7 +139,12 @@ def block(stmts, k):
     if kind == 'CompoundStmt': return block(s.get('inner', []) + rest, k)
     if is_assert(s): return block(rest, k)
     if kind == 'DeclStmt':
-        d = s['inner'][0]; return 'let %s := %s in\n%s' % (d['name'], ex(d['inner'][0]), block(rest, k))
+        d = s['inner'][0]
+        if d.get('name') == 'comp':   # const Compare &comp = compRef();
+            return block(rest, k)
+        e = ex(d['inner'][0])
+        if e == 'VECAPPEND': return 'let \'(l, %s) := vec_append l vs in\n%s' % (d['name'], block(rest, k))
+        return 'let %s := %s in\n%s' % (d['name'], e, block(rest, k))
     if kind == 'ReturnStmt': return ret(ex(s['inner'][0]))
     upd = update_of(s)
     if upd is not None:
@@ -136,7 +175,7 @@ def main():
     with tempfile.TemporaryDirectory(dir=outdir) as tmp:
         src = os.path.join(tmp, 'inst2.cpp')
         with open(src, 'w') as f:
-            f.write('#include <amc/flatset.hpp>\ntemplate class amc::FlatSet<int>;\nvoid use(amc::FlatSet<int>& s, const int& v) { s.insert(s.begin(), v); }\n')
+            f.write('#include <amc/flatset.hpp>\ntemplate class amc::FlatSet<int>;\nvoid use(amc::FlatSet<int>& s, const int& v) { s.insert(s.begin(), v); }\nvoid use2(amc::FlatSet<int>& s, const int* a, const int* b) { s.insert(a, b); }\n')
         out = os.path.join(tmp, 'ast.json')
         with open(out, 'w') as f:
             p = subprocess.run(['clang++', '-std=c++17', '-I' + include, '-fsyntax-only', '-Xclang', '-ast-dump=json', '-Xclang',
@@ -151,6 +190,8 @@ def main():
                     ('insert_val', 'insert_val_gen', 'const int &', '(cmp : Z -> Z -> bool) (l : list Z) (v : Z) : list Z * Z * bool', {}),
                     ('find', 'find_gen', 'const_reference', '(cmp : Z -> Z -> bool) (l : list Z) (k : Z) : Z', {'plain': True}),
                     ('erase', 'erase_key_gen', 'const_reference', '(cmp : Z -> Z -> bool) (l : list Z) (v : Z) : list Z * Z', {}),
+                    ('eraseDuplicates', 'erase_duplicates_gen', 'void0', '(cmp : Z -> Z -> bool) (l : list Z) : list Z', {'void': True}),
+                    ('insert', 'insert_range_gen', 'range', '(cmp : Z -> Z -> bool) (l : list Z) (vs : list Z) : list Z', {'void': True}),
                 ]
                 texts = []
                 # non-template members: only those of the instantiated class FlatSet<int> (the template pattern has unresolved calls)
@@ -162,7 +203,7 @@ def main():
                 for cname, gname, tfilter, sig, opts in SPECS:
                     found = None
                     for o in objs:
-                        for n in (inst_methods if tfilter == 'const_reference' else walk(o)):
+                        for n in (inst_methods if tfilter in ('const_reference', 'void0') else walk(o)):
                             if n.get('kind') == 'CXXMethodDecl' and n.get('name') == cname and any(c.get('kind') == 'CompoundStmt' for c in n.get('inner', [])):
                                 qt = n.get('type', {}).get('qualType', '')
                                 params = [c for c in n['inner'] if c['kind'] == 'ParmVarDecl']
@@ -170,6 +211,10 @@ def main():
                                 if tfilter == 'const int &' and 'const int &' not in qt:
                                     continue
                                 if tfilter == 'const_reference' and not (len(params) == 1 and ('const_reference' in ptypes[0] or ptypes[0] == 'const int &')):
+                                    continue
+                                if tfilter == 'void0' and params:
+                                    continue
+                                if tfilter == 'range' and not (len(params) == 2 and ptypes[0] == 'const int *' and ptypes[1] == 'const int *'):
                                     continue
                                 found = n
                                 break
@@ -180,7 +225,8 @@ def main():
                         continue
                     try:
                         body = [c for c in found['inner'] if c['kind'] == 'CompoundStmt'][0]
-                        g = block([body], None)
+                        LEN[0] = 'len' if gname == 'insert_hint_gen' else '(vlen l)'
+                        g = block([body], 'l' if opts.get('void') else None)
                         if opts.get('plain'):   # a value, not a (list, value) pair
                             g = g.replace('(l, ', '(')
                         texts.append('Definition %s %s :=\n  let len := Z.of_nat (length l) in\n%s.' % (gname, sig, g))
@@ -188,7 +234,7 @@ def main():
                     except Unsupported as e:
                         summary['errors'][cname] = 'untranslatable: ' + str(e)
                 # definition order: find before erase (erase calls find); insert_val before insert_hint is not needed
-                order = {'find_gen': 0, 'insert_val_gen': 1, 'erase_key_gen': 2, 'insert_hint_gen': 3}
+                order = {'find_gen': 0, 'insert_val_gen': 1, 'erase_key_gen': 2, 'erase_duplicates_gen': 3, 'insert_range_gen': 4, 'insert_hint_gen': 5}
                 texts.sort(key=lambda t: order.get(t.split()[1], 9))
                 text = '\n\n'.join(texts) if texts else None
             except Unsupported as e:
